@@ -188,7 +188,7 @@ Outcome execute(const Plan& plan) {
       for (auto& op : plan.ops)
         if (op.name() == "pre") {
           explicitSchedule = true;
-          schedule.push_back({int(op.num("t")), op.unum("at"), int(op.num("to", -1))});
+          schedule.push_back({int(op.num("t")), op.unum("at"), int(op.num("to", -1)), op.unum("q", 0)});
         }
       // warm-up: lazily initialised function-local statics of the library execute extra basic
       // blocks the first time round; without this a plan would number its events differently in
@@ -221,7 +221,9 @@ Outcome execute(const Plan& plan) {
               continue;
             uint64_t at = o[r.below(o.size())] + r.below(3);
             int to = int((task + 1 + r.below(n - 1)) % n);
-            schedule.push_back({int(task), at, to});
+            // the interrupting task runs for a bounded number of its own events, then hands back
+            uint64_t q = r.chance(1, 3) ? 0 : 1 + r.below(r.chance(1, 2) ? 200 : 5000);
+            schedule.push_back({int(task), at, to, q});
           }
         }
       } else if (!explicitSchedule) {
@@ -257,7 +259,8 @@ Outcome execute(const Plan& plan) {
             at = 1 + r.below(seq.size());
           }
           int to = int(r.below(n));
-          schedule.push_back({task, at, to});
+          uint64_t quantum = r.chance(1, 2) ? 0 : 1 + r.below(r.chance(1, 2) ? 200 : 5000);
+          schedule.push_back({task, at, to, quantum});
         }
       }
       // 3. the interleaved run; a violation carries the explicit schedule as its replay plan
@@ -267,7 +270,7 @@ Outcome execute(const Plan& plan) {
       std::string schedText;
       for (auto& p : schedule) {
         Op o = mkop("pre");
-        o.set("t", p.task).setu("at", p.at).set("to", p.to);
+        o.set("t", p.task).setu("at", p.at).set("to", p.to).setu("q", p.quantum);
         derived.ops.push_back(o);
         schedText += " (t" + std::to_string(p.task) + "@" + std::to_string(p.at) + "->t" + std::to_string(p.to) + ")";
       }
